@@ -13,6 +13,10 @@ FNS = ("align_polynomials", "align_shape", "align_indeterminants", "align_expone
 def one_trace(rng, tid, prop):
     reset_options()
     rec = Recorder(tid, prop)
+    if rng.random() < 0.3:
+        # alignment must give one common layout whatever the retain options say (they force the flags on internally)
+        rec.do("set_options", [], keep=False, kw={"retain_names": rng.random() < 0.4, "retain_coefficients": rng.random() < 0.5},
+               bad=[], prop="C14")
     base = gen.rand_shape(rng)
     ops = []
     for i in range(rng.randint(1, 4)):
@@ -34,6 +38,7 @@ def one_trace(rng, tid, prop):
             rec.do("realign", new, keep=False, fn=fn)        # aligning aligned arguments changes nothing
             if rng.random() < 0.5:
                 rec.do("realign", new, keep=False, fn="align_polynomials" if fn == "align_polynomials" else fn)
+    reset_options()
     return rec.to_json()
 
 
